@@ -165,7 +165,7 @@ func runC03(ctx *core.Ctx, unit int) {
 	}
 	forEachInsertion(ctx, t, gen.SigmaWS, k1, shard, c03Shards, func(cand string, ins []gen.Ins, _ []int) {
 		for _, tr := range c03Transforms {
-			if len(ins) > 1 && tr != "identity" && tr != "crlf" {
+			if len(ins) > 1 && tr != "identity" && (tr != "crlf" || len(gen.Gaps(t.Src)) > 120) {
 				continue
 			}
 			eval(applyTransform(cand, tr), ins, tr)
@@ -183,7 +183,7 @@ func runC03(ctx *core.Ctx, unit int) {
 	}
 	// (b) <=2 (thorough <=3 on small templates) insertions from the small alphabet
 	k2 := 2
-	if ctx.Thorough() && len(gen.Gaps(t.Src)) <= 45 {
+	if ctx.Thorough() && len(gen.Gaps(t.Src)) <= 40 {
 		k2 = 3
 	}
 	forEachInsertion(ctx, t, c03Small, k2, shard, c03Shards, func(cand string, ins []gen.Ins, _ []int) {
